@@ -20,12 +20,12 @@ Empty == [x \in {} |-> 0]
 Dev(id) == id \in kf
 
 Init ==
-  /\ TLCSet(1, 0) /\ l = 1 /\ kf = {} /\ devs = {} /\ aux = [dropped |-> FALSE, blk |-> 0, revived |-> FALSE]
+  /\ TLCSet(1, 0) /\ l = 1 /\ kf = {} /\ devs = {} /\ aux = [dropped |-> FALSE, blk |-> 0, revived |-> FALSE, pres |-> ""]
   /\ cap = 1 /\ stx = Empty /\ rcv = Empty /\ fut = Empty
 
 New ==
   /\ Is("new")
-  /\ cap' = R.cap /\ kf' = SeqToSet(R.kf) /\ devs' = {} /\ aux' = [dropped |-> FALSE, blk |-> 0, revived |-> FALSE]
+  /\ cap' = R.cap /\ kf' = SeqToSet(R.kf) /\ devs' = {} /\ aux' = [dropped |-> FALSE, blk |-> 0, revived |-> FALSE, pres |-> ""]
   /\ stx' = [h \in SeqToSet(R.tx) |-> "live"]
   /\ rcv' = [h \in SeqToSet(R.rx) |-> [st |-> "live", subs |-> {}, box |-> <<>>]]
   /\ fut' = Empty
@@ -43,6 +43,36 @@ Pub ==
        ELSE R.res = "ok" /\ rcv' = Deliver(R.topic, R.v)
   /\ UNCHANGED <<cap, stx, fut, kf, devs, aux>>
   /\ Next1
+
+\* Threaded scenarios (topic-thr): the main thread records a publish in two records, `pubc` BEFORE the call
+\* (the message is in the mailboxes from here on: a receiver thread may log that it got it before the
+\* publisher logs its return) and `pubr` after it with the result; sender handles are dropped after
+\* their `hdrop` record.  Receiver threads log `fcall` before a blocking receive and `fret` after it.
+PubC ==
+  /\ Is("pubc") /\ R.h \in DOMAIN stx
+  /\ IF PubRejected(R.h)
+       THEN aux' = [aux EXCEPT !.pres = "closed"] /\ UNCHANGED rcv
+       ELSE aux' = [aux EXCEPT !.pres = "ok"] /\ rcv' = Deliver(R.topic, R.v)
+  /\ UNCHANGED <<cap, stx, fut, kf, devs>>
+  /\ Next1
+
+PubR ==
+  /\ Is("pubr") /\ R.res = aux.pres
+  /\ UNCHANGED <<topicVars, kf, devs, aux>> /\ Next1
+
+\* a receiver thread is still inside its blocking receive long after the last action of the main thread:
+\* legitimate only if that receive cannot complete (C08: Disconnected is observed once every sender is gone
+\* and the mailbox is drained; a delivered message wakes the receiver)
+TBlocked ==
+  /\ Is("tblocked") /\ R.o \in DOMAIN fut
+  /\ ~RecvEnabled(fut[R.o].h)
+  /\ UNCHANGED <<topicVars, kf, devs, aux>> /\ Next1
+
+\* a timed receive of a receiver thread gave up: not judged (the timeout races with the publisher's records)
+TGiveUp ==
+  /\ Is("tgiveup") /\ R.o \in DOMAIN fut
+  /\ fut' = Drop1(fut, R.o)
+  /\ UNCHANGED <<cap, stx, rcv, kf, devs, aux>> /\ Next1
 
 \* one receive call (sequential: call and return in one record)
 RecvRes(r, res, t, v) ==
@@ -180,7 +210,7 @@ End ==
 WakeStale == Is("wake_stale") /\ UNCHANGED <<topicVars, kf, devs, aux>> /\ Next1
 
 Next ==
-  \/ WakeStale \/ New \/ Pub \/ Recv \/ RCall \/ Hung \/ FCall \/ FPend \/ FRet \/ FCancel \/ Wake \/ Sub \/ Unsub \/ Clone \/ Conv \/ Close \/ HDrop \/ Quiesce \/ End
+  \/ WakeStale \/ New \/ Pub \/ PubC \/ PubR \/ TBlocked \/ TGiveUp \/ Recv \/ RCall \/ Hung \/ FCall \/ FPend \/ FRet \/ FCancel \/ Wake \/ Sub \/ Unsub \/ Clone \/ Conv \/ Close \/ HDrop \/ Quiesce \/ End
 Spec == Init /\ [][Next]_vars
 
 Accepted ==
